@@ -108,5 +108,21 @@ META["C11"] = {
     "note": "Six genuine crash defects were repaired in /repo (fix: commits, recorded). Known finding C11-getinbox-social-only. The classification of the 26 remaining sites as 'needs a contract-breaking application' is argued in DESIGN.md, not proved.",
 }
 
+META["C04"] = {
+    "category": "proof",
+    "design_ref": "DESIGN.md section 5 / C04",
+    "technique": "Lean 4: 'written only after Owns said yes' (monitor ownMon) proved for the Add, Remove, Like and Announce side effects over every application by a frame argument on the call alphabet (OnlyCalls) plus loop induction; 'an other-callback replaces the default entirely' proved as 'the post-dispatch program makes the otherCb call and nothing else'; trace replay of the real code, ownMon over its traces, and value oracles for Follow (none/accept/reject), Like and Announce",
+    "text": "Ownership and replacement clauses: theorems for all inputs and answers. Value-level clauses (what exactly is stored for Create/Update/Delete/Accept, front insertion for Like/Announce/Follow): decided per run by replay agreement and independent oracles, not theorems. 'A wrapped callback runs after the default effect' is a trace check.",
+    "note": "Trusted: Lean kernel, transcription (replay-validated), fakes.",
+}
+
+META["C16"] = {
+    "category": "proof",
+    "design_ref": "DESIGN.md section 5 / C16",
+    "technique": "Lean 4: the Update merge proved member-wise (induction over the supplied and the raw member lists: null in the raw object => absent, else supplied, else stored); the Tombstone's id / type / formerType / deleted / published / updated proved; Block proved undeliverable whenever its default effect succeeds, against any application (deterministic-answer semantics); a missing object proved to refuse the request before any call; Add/Remove share the ownership theorems of C04. Trace replay + per-member oracles on the real Get/Update values.",
+    "text": "Pure value theorems hold for all stored/supplied/raw objects. Ordering-independent clauses about lists (append/remove exactly the object ids; liked front insertion) are oracle-checked per run.",
+    "note": "F9 (nulls were read from the activity's top level instead of the object) was a genuine defect, repaired (fix: commit). Trusted: Lean kernel, transcription (replay-validated).",
+}
+
 _ALL = ["C%02d" % i for i in range(1, 21)]
 NOT_APPLICABLE = [{"property_id": p, "reason": PENDING} for p in _ALL if p not in META]
